@@ -48,17 +48,17 @@ def replay(ctx, data):
 MANIFEST = {
     "category": "proof",
     "text": "PARTIAL. Proved (Lean 4, kernel-checked): krill's own arithmetic, shifting and slicing on client-controlled values re-stated "
-            "with checked operations (none = panic) is total on every value that passed krill's validation - "
-            "nr_of_specific_prefixes on every payload passing max_length_valid except exactly ::/0-128 (proved both ways), the covers "
+            "with checked operations (none = panic) is total - nr_of_specific_prefixes on every payload (after fix da59be0d; value "
+            "2^(max_len - pfx_len), saturating for ::/0-128; the pinned tree's overflow kept as a labelled counter-model), the covers "
             "mask shift on well-formed prefixes, the host-bit test of the prefix parsers, RoaAggregateKey::from_str slicing, the "
-            "analyser's authorizes_excess; BgpAnalyser::analyse answers unless a held ROA is ::/0-128; every configuration request "
+            "analyser's authorizes_excess; BgpAnalyser::analyse always answers; every configuration request "
             "pipeline (decode; validate; process) answers and leaves the configuration unchanged unless accepted, for an arbitrary "
             "decoder. Sampled, not proved: the decoders themselves.",
     "note": "Panic-freedom of third-party byte-level decoders (rpki-rs, bcder, serde, quick-xml) is sampled by structured mutation and "
             "random bytes under catch_unwind (validation and search), not proved. The exhaustive part covers the complete finite "
-            "domain of krill's length arithmetic on both sides. Two recorded findings: F-C16-1 (1u128 << 128 for ::/0-128, reached "
-            "through nr_of_specific_prefixes in the analyser) and F-C16-2 (rpki-rs Asn::from_str slices s[..2] off a character "
-            "boundary; reached from krill's JSON request types through ResourceSet). Debug-vs-release overflow behaviour differs "
-            "(model's none marks both).",
+            "domain of krill's length arithmetic on both sides. F-C16-1 (1u128 << 128 for ::/0-128, reached through "
+            "nr_of_specific_prefixes in the analyser) was found here and is fixed (da59be0d); F-C16-2 (rpki-rs Asn::from_str slices "
+            "s[..2] off a character boundary; reached from krill's JSON request types through ResourceSet) is open, upstream. "
+            "Debug-vs-release overflow behaviour differs (model's none marks both).",
     "technique": "Lean 4 proof (checked-arithmetic model, totality theorems) + exhaustive finite-domain correspondence + mutation sampling of decoders",
 }
